@@ -443,3 +443,12 @@ _upd('C04',
      'splice it performs is recorded in-process, checked against the theorem\'s hypotheses and compared with the Lean model of replace_subcircuit.',
      'PARTIAL: cut selection, don\'t-care extraction, the in-place merge of cone outputs with equal patterns and the size accounting are not '
      'modelled (search oracle only). mockturtle and pysat are shims. One open known finding (dead logic).')
+_upd('C13',
+     'Theorems on the model (build_miter composed exactly as the code does: add_circuit + connect_circuit + generate_pairwise_xor + '
+     'connect_circuit + final gate): for well-formed operands, whenever it returns, the result has the left operand\'s inputs in order and one '
+     'output that is True exactly where the two output vectors differ (single output included), hence satisfiable exactly when the operands '
+     'are not equivalent; mismatched shapes give the dedicated error and nothing else; and it DOES return on operands of equal shape with the '
+     'default block names (the three connections meet the preconditions of the left-connection totality theorem: prefixed copy labels and '
+     'block names cannot collide, generate_pairwise_xor\'s labels are distinct by injectivity of the decimal representation). Compared with '
+     'the code on random operand pairs (incl. operands with blocks, shared labels, single outputs) on every run.',
+     '"Leaves both operands unmodified": correspondence only (Lean values cannot alias); the harness compares the operands before and after.')
